@@ -46,6 +46,7 @@ type chunkSpec struct {
 	// field data in the order raw, count, sum, min, max, counter; nil = absent.
 	data [6][]byte
 	key  string
+	ss   []smpl // the samples (timestamps of every field)
 }
 
 const (
@@ -92,7 +93,7 @@ func contentKey(mint, maxt int64, data [6][]byte) string {
 
 // newRawChunk encodes the samples (strictly increasing timestamps, >= 1 sample) as one XOR chunk.
 func newRawChunk(ss []smpl) *chunkSpec {
-	c := &chunkSpec{mint: ss[0].t, maxt: ss[len(ss)-1].t}
+	c := &chunkSpec{mint: ss[0].t, maxt: ss[len(ss)-1].t, ss: ss}
 	c.data[fRaw] = xorBytes(ss)
 	c.key = contentKey(c.mint, c.maxt, c.data)
 	return c
@@ -101,7 +102,7 @@ func newRawChunk(ss []smpl) *chunkSpec {
 // newAggrChunk builds a synthetic aggregate chunk: the populated fields (mask over fCount..fCounter)
 // are XOR chunks over the same timestamps; valueOf gives the value of field f at sample i.
 func newAggrChunk(ss []smpl, fields []int, valueOf func(f, i int, s smpl) float64) *chunkSpec {
-	c := &chunkSpec{mint: ss[0].t, maxt: ss[len(ss)-1].t}
+	c := &chunkSpec{mint: ss[0].t, maxt: ss[len(ss)-1].t, ss: ss}
 	for _, f := range fields {
 		fs := make([]smpl, len(ss))
 		for i, s := range ss {
@@ -229,11 +230,14 @@ func (f frameSpec) String() string {
 type faultKind int
 
 const (
-	faultNone     faultKind = iota
-	faultOpen               // Series() itself returns an error
-	faultRecv               // Recv returns an error after `after` delivered frames
-	faultStall              // Recv blocks after `after` delivered frames until the context is cancelled
-	stallSafety   = 60 * time.Second
+	faultNone  faultKind = iota
+	faultOpen            // Series() itself returns an error
+	faultRecv            // Recv returns an error after `after` delivered frames
+	faultStall           // Recv blocks after `after` delivered frames until the context is cancelled
+)
+
+const (
+	stallSafety   = 60 * time.Second // a stalled stream that is never cancelled is a harness error
 	pauseNone     = 0
 	pauseYield    = 1
 	pauseSleepMin = 2 // values >= 2: sleep (value-1)*50us
@@ -269,8 +273,11 @@ type fakeStore struct {
 	withHash       bool
 	// frames computes the stream for a request (static list for C03/C06, brute-force filter for C05).
 	frames func(req *storepb.SeriesRequest) []frameSpec
-	pauses []int // per delivered frame (cyclic); see pause* constants
-	fault  faultSpec
+	// validate, if set, lets the store reject a request like a real StoreAPI server does; as with gRPC
+	// the error surfaces on the first Recv of the stream.
+	validate func(req *storepb.SeriesRequest) error
+	pauses   []int // per delivered frame (cyclic); see pause* constants
+	fault    faultSpec
 
 	mu          sync.Mutex
 	calls       []*storepb.SeriesRequest
@@ -305,6 +312,11 @@ func (s *fakeStore) Series(ctx context.Context, req *storepb.SeriesRequest, _ ..
 	if s.fault.kind == faultOpen {
 		return nil, s.fault.err
 	}
+	if s.validate != nil {
+		if err := s.validate(req); err != nil {
+			return &fakeSeriesClient{ctx: ctx, st: s, reject: err}, nil
+		}
+	}
 	specs := s.frames(req)
 	frames := make([]*storepb.SeriesResponse, len(specs))
 	for i, f := range specs {
@@ -331,12 +343,16 @@ type fakeSeriesClient struct {
 	st                         *fakeStore
 	frames                     []*storepb.SeriesResponse
 	i                          int
+	reject                     error
 }
 
 func (c *fakeSeriesClient) Context() context.Context { return c.ctx }
 func (c *fakeSeriesClient) CloseSend() error         { return nil }
 
 func (c *fakeSeriesClient) Recv() (*storepb.SeriesResponse, error) {
+	if c.reject != nil {
+		return nil, c.reject
+	}
 	f := c.st.fault
 	if f.kind == faultRecv && c.i >= f.after {
 		return nil, f.err
